@@ -197,6 +197,12 @@ def run(ctx) -> None:
             if has_inst
             else f"cache access `{canon_chain(base, keys)}` does not depend on the instance: instances share a bound signal",
         )
+        for k in keys:
+            if inst in names_in(k) and not (isinstance(k, ast.Name) and k.id == inst):
+                if isinstance(k, ast.Call) and call_name(k) in ("id", "hash", "repr", "str"):
+                    rep.violate("C11.R1", f, n, f"the cache is keyed by `{ast.unparse(k)}`, not by the instance itself: after the owner is garbage collected a new instance can get the same key and inherit the dead instance's bound signal (shared channel, source None)")
+                elif not isinstance(k, ast.Tuple):
+                    rep.unrecognised("C11.R1", f, n, f"cache key `{ast.unparse(k)}` derived from the instance in an unrecognised way")
     rep.floor("C11.R1", len(acc), 2)
     loads = [x for x in acc if not x[3]]
     stores = [x for x in acc if x[3]]
